@@ -2,6 +2,8 @@
   C15 — a target's hash depends only on its final labels and URL, and is stable.
 -/
 import Kvass.Pins.Disc
+import Kvass.Pins.Proxy
+import Kvass.Pins.Store
 import Kvass.Model.Hash
 
 namespace Kvass.Props.C15
